@@ -122,7 +122,7 @@ theorem C18_pub2_pending_after_pubrec (d : SessionData) (r : Runtime) (op : Op) 
     (handlePacket d r (.pubRec op.id rs)).1.status op = .pending := by
   rw [handlePacket_pubRec]
   simp only [ha, hok, hsz, hcap, if_true, Bool.not_true, Bool.false_eq_true, if_false]
-  exact withRelease_status_pending _ op hk hg
+  exact withRelease_status_pending (d.acked op.id .pubRec) op hk hg _
 
 /-- **QoS 2, PUBCOMP that finds its release entry**: the handle reports `complete` (success or failure
 code alike). -/
